@@ -351,6 +351,21 @@ JudgeSerde(fmt, chain, s, e) ==
                  THEN {} ELSE {<<"C19", "record_set_roundtrip">>},
         s |-> s]
 
+\* RecordSet::shrink_buffer_to_fit: the records of the set (and of every other set) stay what they were (C04:
+\* "earlier filled sets stay unchanged"); the capacity the set reports afterwards is the new reference for C18
+JudgeShrink(fmt, chain, s, e) ==
+  IF e.sets_panic THEN [viol |-> {<<"C06", "iterating_record_set_panicked">>, <<"C04", "record_set_changed_by_shrink">>}, s |-> [s EXCEPT !.mode = "lost"]]
+  ELSE LET t == e.slot
+           changed == IF Strip(e.sets[t]) # s.sets[t] THEN {<<"C04", "record_set_changed_by_shrink">>} ELSE {}
+           others == IF \E u \in 1..Len(s.sets) : u # t /\ Strip(e.sets[u]) # s.sets[u] THEN {<<"C04", "other_record_set_changed">>} ELSE {}
+       IN [viol |-> changed \cup others, s |-> [s EXCEPT !.setcap = e.setcap]]
+
+\* RecordSet::len / is_empty agree with what iterating the set yields (C04: a refilled set contains only the new batch)
+SetLenViol(e) ==
+  IF "setlens" \in DOMAIN e /\ ~e.sets_panic /\ Len(e.sets) = Len(e.setlens)
+     /\ \E t \in 1..Len(e.sets) : e.setlens[t] # Len(e.sets[t]) \/ e.setempty[t] # (Len(e.sets[t]) = 0)
+  THEN {<<"C04", "record_set_len">>} ELSE {}
+
 \* the record being parsed, for the "only when a record does not fit" clause of C09
 ElemLen(chain, s) == chain[s.cur].len
 
@@ -359,6 +374,7 @@ Judge(fmt, chain, s, e) ==
                 [] e.op \in {"set", "exact"} -> JudgeSet(fmt, chain, s, e)
                 [] e.op = "seek" -> JudgeSeek(fmt, chain, s, e)
                 [] e.op = "serde_set" -> JudgeSerde(fmt, chain, s, e)
+                [] e.op = "shrink" -> JudgeShrink(fmt, chain, s, e)
                 \* set_policy: nothing changes - except that a policy installed after a refusal takes over: the
                 \* record that did not fit is due again (C09: "a policy installed in mid-stream takes over without
                 \* disturbing the stream")
@@ -375,5 +391,5 @@ Judge(fmt, chain, s, e) ==
       cap2 == IF e.cap >= 0 THEN e.cap ELSE CapAfter(s, e)
       ctx2 == core.s.ctx \cup (IF e.op # "serde_set" /\ SrcErrs(e) # {} THEN {"fault"} ELSE {})
                          \cup (IF e.res.k = "buffer_limit" THEN {"limit"} ELSE {})
-  IN [viol |-> core.viol \cup env, s |-> [core.s EXCEPT !.cap = cap2, !.ctx = ctx2]]
+  IN [viol |-> core.viol \cup env \cup SetLenViol(e), s |-> [core.s EXCEPT !.cap = cap2, !.ctx = ctx2]]
 =============================================================================
